@@ -499,6 +499,17 @@ func (fc *fctx) sliceExpr(e *ast.SliceExpr) string {
 
 func (fc *fctx) selector(e *ast.SelectorExpr) string {
 	t := fc.t
+	if fc.kind(e) == kHashCtor {
+		switch exprText(e) {
+		case "sha1.New":
+			return "(Some SHA1)"
+		case "sha256.New":
+			return "(Some SHA256)"
+		case "sha512.New":
+			return "(Some SHA512)"
+		}
+		t.fail(e, "hash constructor %s", exprText(e))
+	}
 	sel := t.info.Selections[e]
 	if sel == nil || sel.Kind() != types.FieldVal {
 		t.fail(e, "selector %s", e.Sel.Name)
